@@ -30,6 +30,7 @@ def run_property(pid, tier="quick", overlay=None, write=True, out=print, root=No
     try:
         mod = importlib.import_module("spverif.props.%s" % pid.lower())
         ctx = Ctx(overlay=overlay, root=root)
+        chk.ctx = ctx
         mod.run(ctx, chk, tier=tier)
         if tier == "thorough" and overlay is None:
             if hasattr(mod, "thorough"):
